@@ -108,7 +108,13 @@ let register (h : (string, string list -> string) Hashtbl.t)
   Hashtbl.replace h "render" (fun args ->
     match args with
     | os :: nl :: last :: sp :: chunks ->
-      let zi s = z_of_int (int_of_string s) in
+      let zi s =
+        if String.length s < 18 then z_of_int (int_of_string s)
+        else (* size_t values that wrapped around: build the number digit by digit *)
+          let acc = ref Z0 in
+          String.iter (fun ch -> if ch >= '0' && ch <= '9' then
+                          acc := Z.add (Z.mul !acc (z_of_int 10)) (z_of_int (Char.code ch - 48))) s;
+          if String.length s > 0 && s.[0] = '-' then Z.opp !acc else !acc in
       let o = (match String.split_on_char ':' os with
         | [a;b;c;d;e;f;g;hh;i] ->
           { indent_with_tabs = zi a; pp_indent_with_tabs = zi b; output_tab_size = zi c; align_with_tabs = (d = "1");
